@@ -11,7 +11,7 @@ mkdir -p $O/bin $O/replays $O/logs $V/out/gocache
 export GOCACHE=${GOCACHE:-$V/out/gocache}
 python3 $V/tools/gen_gomod.py || exit 2
 OVL=$(python3 $V/tools/gen_overlay.py) || exit 2
-cd $V/sim || exit 2
+cd ${VERIF_SIMDIR:-$V/sim} || exit 2
 RACE=${VERIF_RACE:+-race}
 OUT=$O/bin/harness${VERIF_RACE:+-race}.test
 $GO test -c $RACE -modfile=$O/gomod/go.mod -overlay "$OVL" -vet=off -o "$OUT" \
